@@ -57,6 +57,7 @@ SHAPES = [
     ("choice.pres_size", {"1": "", "2": "", "4": "sizeof(enum)"}, "_fetch_present_idx/_set_present_idx",
      {"1": "generated presence selectors are C enums: always sizeof(int)", "2": "generated presence selectors are C enums: always sizeof(int)"}),
     ("choice.tagged", {"0": "tags_count == 0", "1": "the CHOICE itself carries (explicit) tags"}, "CHOICE_encode_der: tag_mode == 1 || td->tags_count; CHOICE_decode_ber: ber_check_tags", {}),
+    ("choice.alt_tag_ge63", {"0": "", "1": "an alternative's tag number needs the multi-octet OER form"}, "CHOICE_decode_oer: oer_fetch_tag (val & 0x3F) == 0x3F; CHOICE_encode_oer: oer_put_tag", {}),
     ("choice.tag2el_more", {"0": "", "1": "tag2el_count > elements_count (nested untagged CHOICE alternative)"}, "CHOICE_decode_ber: bsearch in tag2el, CHOICE_outmost_tag", {}),
     # ---- SET OF / SEQUENCE OF specifics
     ("of.xml_value_list", {"0": "", "1": "as_XMLValueList == 1 (ENUMERATED/BOOLEAN/NULL elements)", "2": "as_XMLValueList == 2 (CHOICE elements)"},
@@ -133,6 +134,7 @@ Z0 = """C19Z DEFINITIONS IMPLICIT TAGS ::= BEGIN
   ZChTagE ::= [APPLICATION 7] EXPLICIT ZCh
   ZChTag2 ::= [APPLICATION 8] EXPLICIT ZChTagE
   ZChOne ::= CHOICE { only SEQUENCE { v INTEGER } }
+  ZChHigh ::= CHOICE { a [70] INTEGER, b [APPLICATION 300] BOOLEAN, c [2] NULL, d [PRIVATE 20000] IA5String }
   ZChCon ::= CHOICE { small [0] INTEGER (0..3), txt [1] IA5String (SIZE(1..2)), free [2] INTEGER, lst [3] SEQUENCE (SIZE(0..2)) OF BOOLEAN }
   -- ---- SET OF / SEQUENCE OF: XML list forms, named element, size shapes
   ZEnumS ::= ENUMERATED { red(0), green(1), blue(2) }
@@ -228,7 +230,7 @@ END
 
 Z0_TYPES = ("ZCh ZChU ZSetCh ZSetCh2 ZSetChOpt ZSeqAsSet ZSetExtV1 ZSetExtV2 ZSetBig ZSetAllOpt ZRecSet ZSetOrd "
             "ZSeqCh ZSeqOpt9 ZSeqDup ZSeqExtV1 ZSeqExtV2 ZSeqExtV3 ZSeqMid ZSeqExtOnly ZSeqDef ZSeqAnyOpt ZSeqAnyBy ZSeqOptAll ZLoose ZTight "
-            "ZChNest ZChOrd ZChExtV1 ZChExtV2 ZChTagE ZChTag2 ZChOne ZChCon "
+            "ZChNest ZChOrd ZChExtV1 ZChExtV2 ZChTagE ZChTag2 ZChOne ZChHigh ZChCon "
             "ZEnumS ZSofEnum ZSofBool ZSofNull ZSofCh ZSetOfCh ZSofNamed ZSofFix ZSofExt ZSofSemi ZSofBig ZSofSof ZSetOfSet ZSofTag "
             "ZTagE ZTagII ZTagEE ZTagHigh ZTag31 "
             "ZI0 ZI8 ZI8s ZI16 ZI16s ZI17 ZI32s ZI32u ZI64s ZIsemi ZIsemiN ZIupper ZIext ZIextW ZIhole ZNamed ZEnumBig ZEnumExt ZEnumExtV1 ZEnumOne "
